@@ -24,3 +24,21 @@ pub fn yield_point(tag: &'static str) {
         hook(tag);
     }
 }
+
+/// Per reloader thread (identified by the address of its `Answers`): is it blocked in `Select::ready()`?
+/// The entry is removed when the thread exits.
+static RELOADER_IN_READY: RwLock<Vec<(usize, bool)>> = RwLock::new(Vec::new());
+
+pub(crate) fn set_reloader_in_ready(id: usize, state: Option<bool>) {
+    let mut v = RELOADER_IN_READY.write().unwrap_or_else(|e| e.into_inner());
+    v.retain(|(i, _)| *i != id);
+    if let Some(s) = state {
+        v.push((id, s));
+    }
+}
+
+/// `Some(true)`: the reloader thread `id` is inside `Select::ready()`; `None`: no such thread (any more).
+pub fn reloader_in_ready(id: usize) -> Option<bool> {
+    let v = RELOADER_IN_READY.read().unwrap_or_else(|e| e.into_inner());
+    v.iter().find(|(i, _)| *i == id).map(|(_, s)| *s)
+}
